@@ -302,6 +302,35 @@ func (P *Prog) classifyErr(t *Term, fs factSet) (exitKind, bool) {
 		if fs.has(Fact{isNil.Pred, true}) {
 			return exitSuccess, false
 		}
+		// an in-package callee (also a function literal) every exit of which
+		// fails, resp. succeeds, gives a decided verdict
+		if g := P.calleeOfTerm(call); g != nil && g.Blocks != nil {
+			if fr, done := P.facts[g]; !done || !fr.busy {
+				fr := P.factsOf(g)
+				ei := errIndex(g)
+				idx := 0
+				if t.Op == "res" {
+					idx, _ = strconv.Atoi(t.S)
+				}
+				if !fr.busy && ei == idx && len(fr.exits) > 0 {
+					allFail, allOK := true, true
+					for _, x := range fr.exits {
+						if x.kind != exitFailure {
+							allFail = false
+						}
+						if x.kind != exitSuccess || x.delegated {
+							allOK = false
+						}
+					}
+					if allFail {
+						return exitFailure, false
+					}
+					if allOK {
+						return exitSuccess, false
+					}
+				}
+			}
+		}
 		return exitSuccess, true // delegated
 	case "load":
 		// package-level error variables are non-nil (R18.3: init-only)
